@@ -3,7 +3,7 @@ import ILV.Model.Persist
 import ILV.Spec.C13
 /-
   C13 driver.  Request: `c13.run <buffer_size> | item ; item ; …` with items
-    i <rel> <t,t,…> | d <rel> <t,t,…> | X <rel> | F | C      each optionally followed by `@<j>[c<keep><e|p|l|m>]`
+    i <kg>:<rel> <t,t,…> | d <kg>:<rel> <t,t,…> | X <kg>:<rel> | F <kg> | C      each optionally followed by `@<j>[c<keep><e|p|l|m>]`
     R                                                       crash between operations
     O @<j>[c<keep><f>]                                      the reopen after a crash crashes after its j-th step
   Output: one token per event — `ok/<steps>` `err/<steps>` for an operation, `!` for a crash,
@@ -44,7 +44,7 @@ def opOfWire : List String → Option EOp
   | ["i", r, ts] => (natsOfWire ts).map (fun l => .ins (nameOfWire r) l)
   | ["d", r, ts] => (natsOfWire ts).map (fun l => .del (nameOfWire r) l)
   | ["X", r] => some (.dropRel (nameOfWire r))
-  | ["F"] => some (.flushAll [])       -- the shard order is read off the implementation's token (`fillOrd`)
+  | ["F", kg] => some (.flushAll (nameOfWire kg) [])   -- the shard order is read off the implementation's token (`fillOrd`)
   | ["C"] => some (.compactAll [])
   | _ => none
 
@@ -220,9 +220,9 @@ def ordOfTok (tok : String) : List Name :=
   if o.isEmpty || o == "-" then [] else (o.splitOn "+").map nameOfWire
 
 def withOrd (ord : List Name) : HItem → HItem
-  | .op (.flushAll _) => .op (.flushAll ord)
+  | .op (.flushAll kg _) => .op (.flushAll kg ord)
   | .op (.compactAll _) => .op (.compactAll ord)
-  | .opCrash (.flushAll _) j c => .opCrash (.flushAll ord) j c
+  | .opCrash (.flushAll kg _) j c => .opCrash (.flushAll kg ord) j c
   | .opCrash (.compactAll _) j c => .opCrash (.compactAll ord) j c
   | x => x
 
